@@ -27,13 +27,24 @@ for d in sorted(glob.glob(os.path.join(ROOT, "seeded", "C*", "*"))):
     owner = hit.get(pid)
     later = m.get("detected_after_strengthening")
     own = ("**yes** " + "; ".join(s.strip() for s in owner["signatures"][:2])) if owner else ("no" + (f" -> **yes after strengthening**: {later}" if later else ""))
+    pre = m.get("pre_round_harness")
+    if m.get("strengthened_before_first_run") and pre:
+        cur = ("; ".join(s.strip() for s in owner["signatures"][:2])) if owner else "?"
+        if pre.get("owner_detects") is True:
+            own = f"**yes** (harness {pre['harness_commit']}, before the strengthening) " + "; ".join(pre.get("signatures") or [])
+        elif pre.get("owner_detects") is False:
+            own = f"no (harness {pre['harness_commit']}) -> **yes after strengthening**: {cur}"
+        else:
+            own = f"pre-round harness not measured; **yes** with the check strengthened from the seeder's summary: {cur}"
     others = ", ".join(k for k in hit if k != pid) or ("-" if owner else "none")
     summ = (m.get("summary") or "").replace("\n", " ").replace("|", "/")
     need = (m.get("needs_to_manifest") or "").replace("\n", " ").replace("|", "/")
     fp = m.get("final_pass") or {}
     fhit = {k: v for k, v in (fp.get("detected_by_quick") or {}).items() if isinstance(v, dict) and "signatures" in v}
-    if not fp:
-        fin = "(not re-run)"
+    if not fp and x == "I" and owner:
+        fin = "**yes** (the run of this round is the final harness) " + "; ".join(s.strip() for s in owner["signatures"][:2])
+    elif not fp:
+        fin = "(not re-run in the last pass: time)"
     elif fp.get("owner_detects"):
         fin = "**yes** " + "; ".join(s.strip() for s in fhit[pid]["signatures"][:2])
     elif m.get("out_of_scope"):
